@@ -107,13 +107,12 @@ theorem C17_no_temp_left (s : State) (xs : List Txn) (rms : List Path) (hfresh :
     ∀ t ∈ tmps xs, (exec s (runOps xs rms)).dir t = none :=
   no_temp_left xs s rms hfresh
 
-/-- which directory entries a run can create, replace or delete: temp files and outputs under the CWD prefix,
-    glob matches under the package prefix. With `dir = "."` (cwdPrefix = pkgPrefix) all of them are in the package
-    directory and are outputs, their temp files, or `*.shoot<cmd>*.go` matches. -/
+/-- which directory entries a run can create, replace or delete: outputs and their temp files, and glob matches —
+    all of them in the package directory (`pkgPrefix`, the `[dir]` argument), whatever the current directory is -/
 theorem C17_confined (c : Config) (op : Op) (h : op ∈ c.ops) :
     match op with
-    | .createTempExcl t => ∃ o ∈ c.outs, t = c.cwdPrefix ++ tempName o.1 o.2.2
-    | .rename a b => ∃ o ∈ c.outs, a = c.cwdPrefix ++ tempName o.1 o.2.2 ∧ b = c.cwdPrefix ++ o.1
+    | .createTempExcl t => ∃ o ∈ c.outs, t = c.pkgPrefix ++ tempName o.1 o.2.2
+    | .rename a b => ∃ o ∈ c.outs, a = c.pkgPrefix ++ tempName o.1 o.2.2 ∧ b = c.pkgPrefix ++ o.1
     | .remove p => ∃ f ∈ c.listing, p = c.pkgPrefix ++ f.name ∧ globMatch c.cmd f.name = true
     | .write _ => True
     | .close => True := by
@@ -128,31 +127,6 @@ theorem C17_confined (c : Config) (op : Op) (h : op ∈ c.ops) :
       · exact ⟨x, by simp, h⟩
       · obtain ⟨y, hy, hyo⟩ := ih op h
         exact ⟨y, by simp [hy], hyo⟩
-  have hglob : ∀ (l : List FileInfo) (n : String), n ∈ (cleanLoop c.cmd c.dirPrefix c.genfile l).1 →
-      ∃ f ∈ l, f.name = n ∧ globMatch c.cmd f.name = true := by
-    intro l
-    induction l with
-    | nil => intro n hn; simp [cleanLoop] at hn
-    | cons f r ih =>
-      intro n hn
-      unfold cleanLoop at hn
-      by_cases hg : globMatch c.cmd f.name = true
-      · simp only [hg, Bool.not_true, Bool.false_eq_true, ↓reduceIte] at hn
-        have lift : n ∈ (cleanLoop c.cmd c.dirPrefix c.genfile r).1 → ∃ g ∈ f :: r, g.name = n ∧ globMatch c.cmd g.name = true := by
-          intro h'; obtain ⟨g, hgm, hgn⟩ := ih n h'; exact ⟨g, by simp [hgm], hgn⟩
-        split at hn
-        · exact lift hn
-        · split at hn
-          · simp at hn
-          · split at hn
-            · exact lift hn
-            · simp only [List.mem_cons] at hn
-              rcases hn with rfl | hn
-              · exact ⟨f, by simp, rfl, hg⟩
-              · exact lift hn
-      · simp only [hg, Bool.not_false, ↓reduceIte] at hn
-        obtain ⟨g, hgm, hgn⟩ := ih n hn
-        exact ⟨g, by simp [hgm], hgn⟩
   simp only [Config.ops, runOps, List.mem_append, List.mem_map] at h
   rcases h with h | ⟨p, hp, rfl⟩
   · obtain ⟨x, hx, hxo⟩ := htx _ op h
@@ -169,20 +143,21 @@ theorem C17_confined (c : Config) (op : Op) (h : op ∈ c.ops) :
     obtain ⟨n, hn, rfl⟩ := hp
     simp only [Config.cleanNames] at hn
     split at hn
-    · obtain ⟨f, hf, hfn, hfg⟩ := hglob _ n hn
+    · obtain ⟨f, hf, hfn, hfg, _⟩ := cleanLoop_removable c.cmd c.genfile c.listing n hn
       exact ⟨f, hf, by rw [hfn], hfg⟩
     · simp at hn
 
-/-- headline: Clean removes a file only if its header says it was generated by the same sub-command in per-type
-    mode — provided every file it can reach carries a header (`listingWF`); without that proviso the statement is
-    false today (F_clean_handwritten) -/
-theorem C17_clean_only_generated (c : Config) (h : listingWF c.cmd c.dirPrefix c.genfile c.listing = true) :
+/-- headline: Clean removes a file only if its first line says it was generated by the same sub-command and it is not
+    an all-in-one file — for EVERY directory listing (hand-written look-alikes, files of other sub-commands and files
+    without a newline included) -/
+theorem C17_clean_only_generated (c : Config) :
     (∀ p ∈ c.clean, ∃ f ∈ c.listing, p = c.pkgPrefix ++ f.name ∧ removable c.cmd f = true) ∧ badRemoved c = [] := by
-  have hrem : ∀ n ∈ c.cleanNames.1, ∃ f ∈ c.listing, f.name = n ∧ removable c.cmd f = true := by
+  have hrem : ∀ n ∈ c.cleanNames, ∃ f ∈ c.listing, f.name = n ∧ removable c.cmd f = true := by
     intro n hn
     simp only [Config.cleanNames] at hn
     split at hn
-    · exact cleanLoop_removable c.cmd c.dirPrefix c.genfile c.listing h n hn
+    · obtain ⟨f, hf, hfn, _, hfr⟩ := cleanLoop_removable c.cmd c.genfile c.listing n hn
+      exact ⟨f, hf, hfn, hfr⟩
     · simp at hn
   constructor
   · intro p hp
@@ -252,31 +227,25 @@ example : (List.range 6).map (fun k =>
         (some [7, 7, 7], some [7, 7, 7], some [1, 2], some 2),
         (some [8, 9, 9], some [7, 7, 7], some [1, 2], none) ] := by decide
 
-/-! ### witnesses of the finding regions -/
+/-! ### formerly finding regions, now asserted (repaired in /repo b1cca2e, dc951c2) -/
 
-/-- `shoot new -type=User p` from the parent directory: the output lands in the CWD, not in p/ -/
-def wDirCfg : Config :=
-  { cmd := .new, cwdPrefix := "", pkgPrefix := "p/", dirPrefix := "p/", outs := [("a.shootnew.user.go", [[1]], "42")],
-    cleanActive := false, genfile := "", listing := [] }
+/-- `shoot new -type=User p` from the parent directory: temp file and output live in p/ -/
+example :
+    ({ cmd := .new, pkgPrefix := "p/", outs := [("a.shootnew.user.go", [[1]], "42")], cleanActive := false, genfile := "",
+       listing := [] } : Config).ops
+      = [.createTempExcl "p/.a.shootnew.user.go_42", .write [1], .close,
+         .rename "p/.a.shootnew.user.go_42" "p/a.shootnew.user.go"] := by decide
 
-theorem C17_F_dir_cwd_witness :
-    region wDirCfg = .F_dir_cwd ∧
-    wDirCfg.ops = [.createTempExcl ".a.shootnew.user.go_42", .write [1], .close,
-                   .rename ".a.shootnew.user.go_42" "a.shootnew.user.go"] ∧
-    ¬ ("p/".toList.isPrefixOf "a.shootnew.user.go".toList) := by decide
-
-/-- a hand-written notes.shootnewstuff.go next to an all-in-one run: Clean removes it -/
-def wCleanCfg : Config :=
-  { cmd := .new, cwdPrefix := "", pkgPrefix := "", dirPrefix := "", outs := [("a.shootnew.go", [[1]], "42")],
-    cleanActive := true, genfile := "a.shootnew.go",
-    listing := [ { name := "a.shootnew.go", firstLine := some "// Code generated by \"shoot new -type=*\"; DO NOT EDIT. (v0.7.0)" },
-                 { name := "b.shootnew.beta.go", firstLine := some "// Code generated by \"shoot new -type=Beta\"; DO NOT EDIT. (v0.7.0)" },
-                 { name := "notes.shootnewstuff.go", firstLine := some "package p1" },
-                 { name := "x.shootnew.go.bak", firstLine := some "package p1" } ] }
-
-theorem C17_F_clean_handwritten_witness :
-    region wCleanCfg = .F_clean_handwritten ∧
-    wCleanCfg.clean = ["b.shootnew.beta.go", "notes.shootnewstuff.go"] ∧
-    badRemoved wCleanCfg = ["notes.shootnewstuff.go"] := by decide
+/-- next to an all-in-one run: the superseded per-type file goes, the hand-written look-alike, the file of another
+    sub-command that happens to match and the file without header stay -/
+example :
+    ({ cmd := .new, pkgPrefix := "", outs := [("a.shootnew.go", [[1]], "42")], cleanActive := true, genfile := "a.shootnew.go",
+       listing := [ { name := "a.shootnew.go", firstLine := "// Code generated by \"shoot new -type=*\"; DO NOT EDIT. (v0.7.0)" },
+                    { name := "b.shootnew.beta.go", firstLine := "// Code generated by \"shoot new -type=Beta\"; DO NOT EDIT. (v0.7.0)" },
+                    { name := "c.shootnew.go", firstLine := "// Code generated by \"shoot new -getset -type=*\"; DO NOT EDIT. (v0.7.0)" },
+                    { name := "d.shootnew.x.shootmap.go", firstLine := "// Code generated by \"shoot map -type=X\"; DO NOT EDIT. (v0.7.0)" },
+                    { name := "notes.shootnewstuff.go", firstLine := "package p1" },
+                    { name := "x.shootnew.go.bak", firstLine := "package p1" } ] } : Config).clean
+      = ["b.shootnew.beta.go"] := by decide
 
 end ShootVerif.Fs
